@@ -300,7 +300,7 @@ def pass2Items (t : SegT) : List (Nat × Item) → Nat → List Nat → Ctx → 
       if checkInstruction ctx.device op args then
         match process ctx op args cur with
         | .ok bytes => pass2Items t rest (cur + bytes.length / 2) (acc ++ bytes) ctx
-        | .err _ => lineErr ln "instruction"
+        | .err => lineErr ln "instruction"
         | .oof => .oof
       else lineErr ln "not-allowed-for-device"
     | .data dt ops =>
